@@ -76,7 +76,7 @@ func (r *Runner) Open(histNo int) error {
 		return err
 	}
 	r.Shard = s
-	r.TW.Emit("Reset", M{"schema": r.Cfg.AbsSchema(), "pool": PoolRelations(r.Cfg.N()), "limit": LimitModel, "cfg": r.Cfg.Name, "mem": b2i(r.Cfg.Mem)})
+	r.TW.Emit("Reset", M{"schema": r.Cfg.AbsSchema(), "pool": PoolRelations(r.Cfg.N()), "limit": LimitModel, "cfg": r.Cfg.Name, "mem": b2i(r.Cfg.Mem), "cache": cacheTag(r.Cfg.CacheSize)})
 	return nil
 }
 
@@ -216,6 +216,17 @@ func realBatch(b []GenPoint) []models.Point {
 		out[i] = models.Point{Id: UUIDOf(p.ID), Data: data}
 	}
 	return out
+}
+
+// cacheTag abstracts the cache size: 0 = off, 1 = bounded, 2 = unlimited.
+func cacheTag(sz int64) int {
+	switch {
+	case sz == 0:
+		return 0
+	case sz < 0:
+		return 2
+	}
+	return 1
 }
 
 // errStr is logged for diagnosis only; no specification reads it.
